@@ -31,6 +31,7 @@ Result == IF Has(Reply, "s:result") THEN Get(Reply, "s:result") ELSE VNone
 Flag(name) == PrintT(<<"PROPFAIL", i, name>>)
 Monitor == /\ PathOK(R.cfe, Reply) \/ Flag("check_for_errors:" \o Want)
            /\ PathOK(R.proxy, Result) \/ Flag("ServerProxy:" \o Want)
+           /\ PathOK(R.notify, VNone) \/ Flag("ServerProxy-notify:" \o Want)
            /\ PathOK(R.mcindex, Result) \/ Flag("MultiCall[i]:" \o Want)
            /\ PathOK(R.mciter, Result) \/ Flag("MultiCall-iter:" \o Want)
            /\ PathOK(R.mcindex2, Result) \/ Flag("MultiCall[i]-again:" \o Want)
